@@ -88,13 +88,23 @@ def run(rep, tier, seed):
     # child, or the tree walk does not object to it either (the element named metadata: content not looked at).
     nP = 0
     for e in sorted(W):
-        for where in ("last", "first"):
+        for where in ("last", "first", "{u}", "x}", "x:", "Cap", " pad"):
             try:
                 t = build(e)
             except Exception:  # noqa: BLE001 - reported above
                 break
-            probe = Node("zzNotAKnownElement")
-            t.add_child(probe, index=None if where == "last" else 0)
+            if where in ("last", "first"):
+                probe = Node("zzNotAKnownElement")
+                t.add_child(probe, index=None if where == "last" else 0)
+            else:
+                # a child the rule DOES list, renamed in place into a look-alike that is not a known element
+                if not t.children:
+                    continue
+                probe = t.children[0]
+                nm = probe.name
+                probe.name = {"{u}": "{u}" + nm, "x}": "x}" + nm, "x:": "x:" + nm, "Cap": nm.capitalize(), " pad": nm + " "}[where]
+                if probe.name in node_map:
+                    continue
             nerrs, terrs = [], []
             try:
                 validate.node(t, nerrs)
@@ -107,7 +117,7 @@ def run(rep, tier, seed):
             tree_objects = [x[0].name for x in terrs if len(x) > 2 and x[2] is probe]
             if not node_objects and tree_objects:
                 rep.violation(f"{PID}:node-allows-what-tree-cannot-accept:{e}",
-                              f"validate.node({e}) raises no objection to a child named zzNotAKnownElement ({where}), validate.tree reports {tree_objects} for that child",
+                              f"validate.node({e}) raises no objection to a child named {probe.name!r} ({where}), validate.tree reports {tree_objects} for that child",
                               {"kind": "closure-probe", "element": e, "position": where})
             Node.store.clear()
     rep.notes["closure_probes"] = nP
